@@ -215,3 +215,12 @@ package syncer
 //@   requires [holds-slot] subnet != "" && s.config.MaxInflightRPCsPerSubnet > 0 ==> (subnet in s.inflightSubnet)
 //@   ensures [peer-slot-returned] called("chan.recv")
 //@   ensures [subnet-slot-returned] called("releaseInflight") && callarg("releaseInflight", 1) == subnet
+//
+// syncLoop runs outside the RPC handlers' recover: whatever a peer answers to SendHeaders (the
+// header list and the count of remaining headers are the peer's words) must not be able to crash
+// it. Thin safety contract: the automatically generated division and index conditions of the
+// function body, with the answers arbitrary (pointer safety is left out: the go statements of the
+// loop are modelled as arbitrary changes of everything the closures captured, the receiver included).
+//@ func (*Syncer).syncLoop props C11
+//@   nopanic divzero,bounds
+//@   requires s != nil && s.cm != nil && s.log != nil && ctx != nil
